@@ -71,6 +71,48 @@ type c14FE struct {
 	// the forEach is followed by a log operation that READS THE VARIABLE THROUGH A TEMPLATE (the data snapshot the
 	// template engine gets — another route than Lookup): gone means gone there too
 	After bool `json:"after,omitempty"`
+	// source items only — LITERAL ITEMS THAT ARE NOT PLAIN TEXTS ("item sources: literal items …" — an entry of the
+	// item list is a text, a TEMPLATE of the data or a REFERENCE to a leaf of the data) whose value depends on what
+	// the BODY itself writes: per item "" (the text Items[i] as it is) | "tmpl" (the item is the template
+	// `{{ .acc }}` followed by Items[i]) | "ref" (the item is a reference to the leaf `acc`).  With any of them the
+	// data holds acc = "s0" and the body's first operation is a template operation that stores `A-<item>` at `acc`.
+	// "forEach runs its body once per item, in item order, with the loop variable bound to that item": the i-th pass
+	// is bound to the i-th item as it is WHEN ITS TURN COMES — the linked-list walk `item: [{ref: next}, {ref: next}]`
+	// visits a node, then the node the body found there —, so the item of pass i is rendered from the `acc` pass i-1
+	// left (closed form: c14FE.resolved).
+	Dyn []string `json:"dyn,omitempty"`
+}
+
+// dyn: some item of the list is a template of / a reference to the leaf the body writes
+func (p *c14FE) dyn() bool {
+	if p.Source != "items" {
+		return false
+	}
+	for i := range p.Items {
+		if i < len(p.Dyn) && (p.Dyn[i] == "tmpl" || p.Dyn[i] == "ref") {
+			return true
+		}
+	}
+	return false
+}
+
+// resolved: the items of a record with dynamic items, in closed form: acc_0 = "s0"; item_i = Items[i] | acc_i + Items[i]
+// | acc_i; acc_(i+1) = "A-" + item_i
+func (p *c14FE) resolved() []string {
+	acc := "s0"
+	out := make([]string, len(p.Items))
+	for i, it := range p.Items {
+		switch {
+		case i < len(p.Dyn) && p.Dyn[i] == "tmpl":
+			out[i] = acc + it
+		case i < len(p.Dyn) && p.Dyn[i] == "ref":
+			out[i] = acc
+		default:
+			out[i] = it
+		}
+		acc = "A-" + out[i]
+	}
+	return out
 }
 
 const c14NoiseMsg = "N-{{ .other.nope }}-{{ .keep.x }}"
@@ -129,6 +171,9 @@ func (p *c14FE) text(i int) string {
 	if p.isNull(i) {
 		return "<no value>"
 	}
+	if p.dyn() {
+		return p.resolved()[i]
+	}
 	return p.Items[i]
 }
 
@@ -145,6 +190,21 @@ func (p *c14FE) norm() {
 		if strings.ContainsAny(*p.Var, "[]") || strings.Contains(*p.Var, "{{") || *p.Var == "" {
 			p.Var = sp("it") // (an index group in a name is path syntax of AddValue itself: outside the domain)
 		}
+	}
+	if p.Source != "items" || !c14PlainVar(p.Var) || c14VarName(p.Var) == "acc" {
+		p.Dyn = nil
+	}
+	if len(p.Dyn) > len(p.Items) {
+		p.Dyn = p.Dyn[:len(p.Items)]
+	}
+	for i := range p.Dyn {
+		// (an item text that holds template syntax of its own stays a plain item)
+		if p.Dyn[i] != "ref" && (p.Dyn[i] != "tmpl" || strings.Contains(p.Items[i], "{{") || strings.Contains(p.Items[i], "}}")) {
+			p.Dyn[i] = ""
+		}
+	}
+	if p.dyn() {
+		p.Twice = false // (the second run would start from the `acc` the first one left)
 	}
 	defer func() {
 		// after the items are settled: the written slot is one of the list's, or the one after the last
@@ -214,6 +274,13 @@ func (p *c14FE) dataWith(atLoop bool, passes int) W {
 	if p.Source != "clist" {
 		items = written(items)
 	}
+	if p.dyn() {
+		// the leaf the body writes and the dynamic items read: "s0" at first, `A-<item>` after a pass
+		d["acc"] = "s0"
+		if passes > 0 {
+			d["acc"] = "A-" + p.resolved()[passes-1]
+		}
+	}
 	switch p.Source {
 	case "list":
 		d["xs"] = items
@@ -250,8 +317,15 @@ func (p *c14FE) prog() []c12Op {
 	switch p.Source {
 	case "items":
 		its := []c12VoR{}
-		for _, s := range p.Items {
-			its = append(its, c12VoR{Val: s})
+		for i, s := range p.Items {
+			switch {
+			case i < len(p.Dyn) && p.Dyn[i] == "tmpl" && p.dyn():
+				its = append(its, c12VoR{Val: "{{ .acc }}" + s})
+			case i < len(p.Dyn) && p.Dyn[i] == "ref" && p.dyn():
+				its = append(its, c12VoR{IsRef: true, Ref: "acc"})
+			default:
+				its = append(its, c12VoR{Val: s})
+			}
 		}
 		op.Items = &its
 	case "list", "clist", "sparse":
@@ -268,6 +342,9 @@ func (p *c14FE) prog() []c12Op {
 		op.Query = &c12VoR{Val: "no.such.path"}
 	}
 	body := &c12Act{Name: "body"}
+	if p.dyn() {
+		body.Ops = append(body.Ops, c12Op{K: "template", Tmpl: "A-" + p.ref(), Path: "acc"})
+	}
 	if p.Write > 0 {
 		body.Ops = append(body.Ops, c12Op{K: "template", Tmpl: "W-" + p.ref(), Path: fmt.Sprintf("%s[%d]", p.listPath(), p.Write-1)})
 	}
@@ -502,6 +579,15 @@ type c14Call struct {
 	// the static argument text (used when the argument is no template; "" = "V"): the value range of a text — the
 	// callable sees the argument AS IT IS (white space around it, case, non-ASCII, syntax look-alikes, long digit strings)
 	Val string `json:"val,omitempty"`
+	// THE CALLABLE'S BODY WRITES AT ITS OWN ARGUMENTS PATH ("for all callable bodies"): a set operation — the first
+	// thing the body does — that fills in a default next to the arguments it was given:
+	//   path     set {dflt: D} at the arguments path (default strategy: merged into the arguments)
+	//   merge    the same with the strategy spelled out and a payload that holds a map of its own
+	//   root     set at the ROOT of the document, the payload spelling out the arguments path as nested maps
+	//            ({p: {q: {dflt: D}}}): merged key by key down to the arguments
+	// The arguments stay readable inside (the trace is the same), and when the call finishes — normally or with an
+	// error — the arguments are gone: all of them, what the body added to them included.
+	SetArgs string `json:"setArgs,omitempty"`
 }
 
 // the static argument of a call record
@@ -554,6 +640,19 @@ func (p *c14Call) prog() []c12Op {
 	f := &c12Act{Name: "f", Ops: []c12Op{{K: "log", Msg: "f:{{ ." + ap + ".x }}/{{ ." + ap + ".sub.z }}/{{ ." + ap + ".n }}"}}}
 	if p.BadArg {
 		f.Ops[0].Msg += "/{{ ." + ap + ".bad }}/{{ ." + ap + ".sub.bad }}"
+	}
+	switch p.SetArgs {
+	case "path":
+		f.Ops = append(f.Ops, c12Op{K: "set", Path: ap, Data: plainWire(map[string]any{"dflt": "D"})})
+	case "merge":
+		f.Ops = append(f.Ops, c12Op{K: "set", Path: ap, Strategy: sp("merge"), Data: plainWire(map[string]any{"dflt": "D", "more": map[string]any{"k": 1}})})
+	case "root":
+		var payload any = map[string]any{"dflt": "D"}
+		segs := strings.Split(ap, ".")
+		for i := len(segs) - 1; i >= 0; i-- {
+			payload = map[string]any{segs[i]: payload}
+		}
+		f.Ops = append(f.Ops, c12Op{K: "set", Data: plainWire(payload)})
 	}
 	if p.Nested {
 		f.Children = append(f.Children, c12Act{Name: "inner", Order: 1, Ops: []c12Op{
@@ -1131,6 +1230,10 @@ func c14Run(c *Ctx) {
 		c.Do("foreach", c14FE{Source: src, Items: []string{"a", "b"}, Bad: []bool{false, false}, Log: true, Child: true, Noise: true})
 		c.Do("foreach", c14FE{Source: src, Items: []string{"a", "b"}, Bad: []bool{false, false}, Log: true, Ext: true, Twice: true})
 	}
+	// the smallest records with literal items that are templates of / references to the leaf the body writes
+	for _, dyn := range [][]string{{"", "tmpl"}, {"", "ref"}, {"ref", "ref", "ref"}, {"", "tmpl", "tmpl"}, {"tmpl", "", "ref"}} {
+		c.Do("foreach", c14FE{Source: "items", Items: []string{"a", "b", "c"}[:len(dyn)], Bad: []bool{false, false, false}[:len(dyn)], Log: true, Dyn: dyn})
+	}
 	for i := 0; i < c.N(900); i++ {
 		c.Tick()
 		p := c14FE{Source: pick(r, []string{"items", "list", "list", "deep", "nested", "sparse", "leaf", "cont", "clist", "clist", "missing"}),
@@ -1185,6 +1288,13 @@ func c14Run(c *Ctx) {
 		p.Noise = r.Intn(6) == 0
 		p.Twice = p.Write == 0 && r.Intn(8) == 0
 		p.After = r.Intn(3) == 0
+		if p.Source == "items" && n > 0 && r.Intn(2) == 0 {
+			// literal items that are templates of / references to the leaf the body writes
+			p.Dyn = make([]string, n)
+			for j := range p.Dyn {
+				p.Dyn[j] = pick(r, []string{"", "tmpl", "ref"})
+			}
+		}
 		c.Do("foreach", p)
 	}
 	for i := 0; i < c.N(500); i++ {
@@ -1197,10 +1307,22 @@ func c14Run(c *Ctx) {
 		c.Do("loop", p)
 	}
 	paths := []*string{nil, sp("p"), sp("p.q"), sp("p.q.r"), sp("{{ .where }}"), sp("args"), sp("a_b.c9")}
+	// the smallest records first: a callable that fills in a default at its own arguments path (single key / dotted;
+	// the call completes / the callable fails afterwards)
+	for _, ap := range []*string{nil, sp("p.q")} {
+		for _, how := range []string{"path", "merge", "root"} {
+			for _, fail := range []string{"", "outer"} {
+				c.Do("call", c14Call{ArgsPath: ap, Inner: sp("in"), SetArgs: how, Fail: fail})
+			}
+		}
+	}
 	for i := 0; i < c.N(500); i++ {
 		c.Tick()
 		p := c14Call{ArgsPath: pick(r, paths), Tmpl: r.Intn(2) == 0, Nested: r.Intn(2) == 0,
 			Fail: pick(r, []string{"", "", "inner", "outer"}), Sibling: r.Intn(3) == 0, BadArg: r.Intn(5) == 0, After: r.Intn(3) == 0}
+		if r.Intn(3) == 0 {
+			p.SetArgs = pick(r, []string{"path", "merge", "root"})
+		}
 		p.Inner = pick(r, []*string{sp("in"), sp("in.ner"), sp("x.y.z"), sp("p2")})
 		if !p.Tmpl && r.Intn(2) == 0 {
 			p.Val = pick(r, c14ItemTexts)
@@ -1477,6 +1599,12 @@ func c14Eval(c *Ctx, kind string, raw []byte) {
 		if p.Noise {
 			c.Dist("foreach:body-logs-a-template-that-fails-at-execution")
 		}
+		if p.dyn() {
+			c.Dist("foreach:literal-items-that-are-templates-or-references-of-what-the-body-writes")
+			if iters >= 2 {
+				c.Dist("foreach:literal-items-that-are-templates-or-references-of-what-the-body-writes:two-or-more-passes")
+			}
+		}
 		// what the loop leaves behind: the document as it was when the loop started, except for the slot the
 		// body writes into (these bodies have no other data effects)
 		final := p.dataAfter(iters)
@@ -1562,6 +1690,11 @@ func c14Eval(c *Ctx, kind string, raw []byte) {
 		if err := json.Unmarshal(raw, &p); err != nil {
 			panic(err)
 		}
+		switch p.SetArgs {
+		case "", "path", "merge", "root":
+		default:
+			p.SetArgs = "path"
+		}
 		data, prog = p.data(), p.prog()
 		want, failed := p.expect()
 		if p.After {
@@ -1575,6 +1708,9 @@ func c14Eval(c *Ctx, kind string, raw []byte) {
 		c.Nontrivial()
 		c.Dist("call:path:" + p.path())
 		c.Dist("call:fail:" + p.Fail)
+		if p.SetArgs != "" {
+			c.Dist("call:the-callable-writes-at-its-own-arguments-path:" + p.SetArgs)
+		}
 		if p.BadArg {
 			c.Dist("call:an-argument-template-fails-at-execution")
 		}
